@@ -144,6 +144,15 @@ class Expander:
             return env[name]
         df = self.df(func)
         if name in df.locals:
+            # bound by an assignment expression evaluated earlier inside the same statement / test
+            if node is not None and node.ast is not None and isinstance(n.ctx, ast.Load):
+                from .util import walrus_binds_before
+
+                root_ = node.ast.iter if node.kind == "iter" else (node.ast.context_expr if node.kind == "with" else node.ast)
+                if root_ is not None and walrus_binds_before(root_, n):
+                    ws = [w for w in ast.walk(root_) if isinstance(w, ast.NamedExpr) and isinstance(w.target, ast.Name) and w.target.id == name]
+                    if len(ws) == 1 and depth < 40:
+                        return self.expr(ws[0].value, func, node, env, depth + 1)
             if node is None:
                 defs = frozenset(df.defs_of(name))
             else:
